@@ -62,7 +62,21 @@ class _PtsInterp(FinamInterp):
         return Sym("slice", *(self.eval(x, env, mod) if x is not None else None for x in (e.lower, e.upper, e.step)))
 
     def sym_len(self, v, node):
+        if isinstance(v, Sym) and v.op == "pad_axis":
+            return 1  # np.zeros(1): the padding axis has one entry
         return Sym("len", v)
+
+    def binop(self, op, left, right, node):
+        ints = (int,)
+        if isinstance(op, ast.Mult) and (isinstance(left, Sym) or isinstance(right, Sym)) and all(isinstance(x, (Sym,) + ints) and not isinstance(x, bool) for x in (left, right)):
+            if left == 1:
+                return right
+            if right == 1:
+                return left
+            return Sym("mul", left, right)
+        if isinstance(op, ast.FloorDiv) and (isinstance(left, Sym) or isinstance(right, Sym)):
+            return left if right == 1 else Sym("floordiv", left, right)
+        return super().binop(op, left, right, node)
 
     def ext_call(self, name, args, kwargs, node):
         short = name.split(".")[-1]
@@ -79,6 +93,10 @@ class _PtsInterp(FinamInterp):
             return tuple(Sym("idgrid", k, tuple(shp)) for k in range(len(shp)))
         if short in ("asarray", "array", "atleast_1d", "ascontiguousarray"):
             return args[0]
+        if short == "repeat" and len(args) == 2:
+            return Sym("repeat", args[0], args[1])
+        if short == "tile" and len(args) == 2:
+            return Sym("tile", args[0], args[1])
         return super().ext_call(name, args, kwargs, node)
 
     def get_attr(self, obj, attr, node, mod):
@@ -136,8 +154,48 @@ class _PtsInterp(FinamInterp):
             raise AnalysisError(f"store into the point table at {k!r}")
         super().set_item(c, k, v, node)
 
-    def binop(self, op, left, right, node):
-        return super().binop(op, left, right, node)
+def _stride_form(col, want_axis, k, dim, order, axes, inc):
+    """tile(repeat(axis, inner), outer): inner must be the number of points of all faster-running axes, outer that of all slower ones."""
+    from ..absbase import poly_of, same_value
+    rep, outer = col.args
+    axis, inner = rep.args
+    if axis != want_axis:
+        return f"repeats {axis!r}, must be {want_axis!r}"
+
+    def ln(j):
+        return Sym("len", axes[j] if inc[j] else Sym("rev", axes[j]))
+
+    def norm(v):
+        # len(rev(ax)) == len(ax)
+        if isinstance(v, Sym):
+            if v.op == "len" and isinstance(v.args[0], Sym) and v.args[0].op == "rev":
+                return Sym("len", v.args[0].args[0])
+            return Sym(v.op, *[norm(a) for a in v.args])
+        return v
+
+    def prod(js):
+        out = 1
+        for j in js:
+            out = Sym("mul", out, norm(ln(j))) if out != 1 else norm(ln(j))
+        return out
+
+    faster = [j for j in range(dim) if (j < k if order == "F" else j > k)]
+    slower = [j for j in range(dim) if (j > k if order == "F" else j < k)]
+    try:
+        if not same_value(norm(inner), prod(faster)):
+            return (f"each entry of axis {k} is repeated {inner!r} times; in order {order} it must be repeated once per point of the faster-running axes "
+                    f"{faster} ({prod(faster)!r} times): points are duplicated / missing for grids with more than one entry on those axes")
+        o = norm(outer)
+        if isinstance(o, Sym) and o.op == "floordiv":
+            total = prod(range(dim))
+            denom = Sym("mul", norm(inner), norm(ln(k))) if inner != 1 else norm(ln(k))
+            if not (same_value(o.args[0], total) and same_value(o.args[1], denom)):
+                return f"the repeated axis is tiled {outer!r} times, must be the number of points of the slower-running axes {slower}"
+        elif not same_value(o, prod(slower)):
+            return f"the repeated axis is tiled {outer!r} times, must be {prod(slower)!r}"
+    except Exception as exc:  # pylint: disable=broad-except
+        raise AnalysisError(f"stride form outside vocabulary: {exc}") from exc
+    return None
 
 
 def r32p_gen_points(repo, sink):
@@ -162,6 +220,12 @@ def r32p_gen_points(repo, sink):
                     return
                 for k, col in enumerate(got[1]):
                     want_axis = axes[k] if inc[k] else Sym("rev", axes[k])
+                    if isinstance(col, Sym) and col.op == "tile" and isinstance(col.args[0], Sym) and col.args[0].op == "repeat":
+                        # stride form: tile(repeat(axis, inner), outer) puts axis[(p // inner) % n] at flat position p
+                        why_s = _stride_form(col, want_axis, k, dim, order, axes, inc)
+                        if why_s:
+                            worst = worst or f"{dim}D, order {order}, axes_increase {list(inc)}: coordinate column {k}: {why_s}"
+                        continue
                     ok = isinstance(col, Sym) and col.op == "take" and col.args[0] == want_axis
                     fl = col.args[1] if ok else None
                     ok = ok and fl.args[0] == k and fl.args[2] == order
@@ -309,6 +373,19 @@ def r32p_locations(repo, sink):
                     back = loc
                 if back != loc:
                     why = f"after setting {loc!r} the grid reports {back!r}"
+                else:
+                    # a refused change leaves the grid as it was
+                    try:
+                        it.run(st, [bad], self_obj=me)
+                        why = "a location outside valid_locations is accepted"
+                    except Raised:
+                        try:
+                            after = it.run(gt, [], self_obj=me)
+                        except (AnalysisError, Undecided, Raised):
+                            after = loc
+                        if after != loc:
+                            why = (f"setting a location outside valid_locations raises, but the grid then reports {after!r} instead of {loc!r}: "
+                                   "the refused change sticks")
         if why == "skip":
             continue
         sink.check(why is None, "R32", f"location-checked:{k.name}", st, ok="data_location is validated against valid_locations",
